@@ -684,3 +684,109 @@ class Lookup(Monitor):
             if not ok:
                 world.violate(P, P + ".whole_run_slice", "system[%r:%r] did not return the whole run of %d rows" % (_f(a), _f(b), n))
                 break
+
+
+class _MathRHS(object):
+    def __init__(self, problem):
+        self.problem = problem
+
+    def __call__(self, t, y, **kw):
+        return self.problem.f(t, y, **kw)
+
+
+def solve_residual(world, sv):
+    """||F(x)||_2 of a recorded stage solve, recomputed with the mathematical rhs (None if not available)."""
+    integ, args = sv.get("f_self"), sv.get("args")
+    if integ is None or args is None or "x" not in sv:
+        return None
+    rhs, t0, y0, h, consts = args
+    Fx = integ.algebraic_system(np.asarray(sv["x"]), _MathRHS(world.problem), t0, y0, h, consts)
+    return float(np.linalg.norm(np.asarray(Fx, dtype=np.float64)))
+
+
+# ======================================================================================== C04
+class FixedStep(Monitor):
+    """C04: a non-adaptive method takes exactly the requested step (except the last one of a call); an implicit method may
+    only shorten a step whose stage equations failed to converge; no step is ever longer than requested."""
+
+    def __init__(self, prop="C04"):
+        self.prop = prop
+
+    def before_op(self, world, i, op, pre):
+        self.ic0 = len(world.icalls)
+        self.dt_before = np.array(world.system.dt, copy=True)
+        self.start = pre["t"][-1]
+
+    def after_op(self, world, i, op, pre, snap):
+        if snap["kind"] != "integrate":
+            return
+        P = self.prop
+        integ = world.system.integrator
+        if getattr(integ, "is_adaptive", False) or world.scn["system"]["method"].startswith("Rich:"):
+            return
+        if op.get("callbacks") and "plan" in op["callbacks"]:
+            return      # user intervention
+        target = op_target(world, op)
+        dtype = snap["t"].dtype
+        eps = eps_of(dtype)
+        # the step the user requested for this call: |dt| as it stood before the call, halved-span rule applied by the library
+        # when dt exceeds the span (then the request is "dt <= span" violated: not in this property's quantifier)
+        req = abs(_f(self.dt_before))
+        span = abs(target - _f(self.start)) if np.isfinite(target) else np.inf
+        if req > span:
+            return
+        calls = [c for c in world.icalls[self.ic0:] if c["depth"] == 0 and c["nested"] == 1]
+        direction = sgn(target - _f(self.start))
+        cur = np.abs(np.asarray(self.dt_before))       # magnitude currently in force (may legitimately shrink after failed solves)
+        for n_, c in enumerate(calls):
+            atts = c["attempts"]
+            if not atts:
+                continue
+            h0 = atts[0]["h"]
+            is_last = (n_ == len(calls) - 1)
+            remaining = np.abs(np.asarray(target, dtype=dtype) - c["t0"]) if np.isfinite(target) else None
+            if sgn(h0) != direction:
+                world.violate(P, P + ".step_sign", "step attempted with h=%r against the direction of integration (%d)" % (_f(h0), direction))
+                break
+            if abs(_f(h0)) > _f(cur) * (1 + 0.0) and not bitwise_equal(np.abs(h0), cur):
+                world.violate(P, P + ".never_longer", "step %d attempted with |h|=%r, longer than the step in force %r (requested dt=%r, %s)"
+                              % (n_, abs(_f(h0)), _f(cur), req, c["cls"]))
+                break
+            if not bitwise_equal(np.abs(h0), cur):
+                # shorter than the step in force: only the final clamp of the call
+                clamp = remaining is not None and bitwise_equal(np.abs(h0), remaining)
+                if not clamp:
+                    world.violate(P, P + ".exact_step", "step %d attempted with |h|=%r instead of the requested %r (t=%r, target %r, %s)"
+                                  % (n_, abs(_f(h0)), _f(cur), _f(c["t0"]), target, c["cls"]))
+                    break
+            # retries inside the call: only after a failed solve, and only shorter
+            prev = h0
+            for j in range(1, len(atts)):
+                a_prev, a = atts[j - 1], atts[j]
+                # "failed to converge" is judged from the solver seam: the solver said so, raised, was made to fail by injection,
+                # or the independently recomputed residual of its answer is above the tolerance it was asked for
+                failed = any((not sv.get("success", True)) or sv.get("raised") for sv in a_prev["solves"]) or len(a_prev["solves"]) > 1 or not a_prev["done"]
+                if not failed and a_prev["solves"]:
+                    sv = a_prev["solves"][-1]
+                    r_ = solve_residual(world, sv)
+                    if r_ is None or sv.get("tol") is None or not (r_ <= sv["tol"]):
+                        failed = True
+                    else:
+                        world.probe("retry_after_converged_solve")
+                if not failed:
+                    world.violate(P, P + ".retry_without_failure", "step %d re-attempted (h=%r -> %r) although its stage solve had succeeded" % (n_, _f(prev), _f(a["h"])))
+                    break
+                if abs(_f(a["h"])) > abs(_f(prev)):
+                    world.violate(P, P + ".never_longer", "retry of step %d uses |h|=%r > %r" % (n_, abs(_f(a["h"])), abs(_f(prev))))
+                    break
+                prev = a["h"]
+            if c["ok"]:
+                world.probe("fixed_steps_checked")
+                if not bitwise_equal(np.abs(c["dTime"]), np.abs(atts[-1]["h"])):
+                    world.violate(P, P + ".recorded_is_attempted", "recorded dTime %r differs from the last attempted h %r" % (_f(c["dTime"]), _f(atts[-1]["h"])))
+                # the step in force for the next call: unchanged, or the shortened step after failed solves
+                if len(atts) > 1:
+                    cur = np.minimum(cur, np.abs(c["dTime"]))
+                    world.probe("implicit_step_shortened")
+        # recorded grid: all steps but the last equal the step in force
+        t = snap["t"]
